@@ -350,7 +350,15 @@ Definition step_C19 (pd : digest) (o : op) (ob : obs) (dg : digest) : bool :=
             end
       end
   | _ => true
-  end.
+  end
+  (* whatever the op: a virtual session that was in a room and is gone after the step has left that room for
+     its backend too (the "remove" request was made) - also when it went with its internal client *)
+  && forallb (fun x =>
+       if is_virtual_d x && negb (live dg x.(d_sid)) then
+         match x.(d_room) with
+         | Some k => existsb (fun b => breq_eqb b (x.(d_backend), 2, 3, snd k, x.(d_sid), 1)) ob.(o_breqs)
+         | None => true end
+       else true) pd.(g_sessions).
 
 (* ------------------------------------------------------------------ stateful clauses: observers (C04) and resume (C06) *)
 Record pstate := mkps {
